@@ -25,7 +25,9 @@ var c05Lookalikes = []string{"", "1", "1.5", "true", "null", "~", "yes", "no", "
 	// multi-line strings whose white space a block scalar would swallow or mistake for indentation
 	"\n", "\nx", "x\n", "\n\n", "x\n\n", "  x\ny", "x\n  y", "x\n\ty", "\tx\ny", "x\n \ny", "x\n\t\n", "a\n\nb", "\n  \t"}
 
-var c05Numbers = []any{0, 1, -1, 2147483648, math.MaxInt64, math.MinInt64, 0.1, 1.5, 2.0, 1e21, 1e-7, -0.5}
+var c05Numbers = []any{0, 1, -1, 2147483648, math.MaxInt64, math.MinInt64, 0.1, 1.5, 2.0, 1e21, 1e-7, -0.5,
+	// integral doubles that no int64 holds but that are printed without exponent or fraction
+	1e19, 9.3e18, 1.8446744073709552e19, -1e19, 123456789012345680000.0, 1e15, 4503599627370497.0}
 
 var c05Formats = []string{"json", "jsonl", "json-pretty", "yaml", "yml", "toml"}
 
@@ -391,7 +393,7 @@ func buildC05(tier string) *core.Plan {
 		}}
 	return &core.Plan{
 		Spaces: []core.Space{roundTrip, cliSpace, multiSpace, c05FileFormatSpace()},
-		Rule: "every single-document stream built from 78 look-alike strings (incl. multi-line strings with significant leading/trailing/inner white space) (as root, key, value, list entry, nested), 12 boundary numbers, bools and empty containers; all trees up to 3 nodes over a reduced look-alike alphabet (thorough: up to 4 nodes over 16 scalars and 9 keys); every stream of 2-4 documents over an 8-document pool; " +
+		Rule: "every single-document stream built from 78 look-alike strings (incl. multi-line strings with significant leading/trailing/inner white space) (as root, key, value, list entry, nested), 19 boundary numbers (incl. integral doubles beyond int64), bools and empty containers; all trees up to 3 nodes over a reduced look-alike alphabet (thorough: up to 4 nodes over 16 scalars and 9 keys); every stream of 2-4 documents over an 8-document pool; " +
 			"each in all 6 output formats (TOML: map-rooted only); CLI matrix -f x -o extension x (virtual) input extension x real format",
 		Assumptions: []string{"decode(encode(docs)) is compared by value (2.0 may read back as 2) with bkl's decoder, with a fresh Parser loading the bytes as a file, and with Python json / PyYAML under a YAML 1.2 core-schema resolver / tomllib",
 			"strings contain no $ (they would be directives when re-read as a file)"},
